@@ -200,3 +200,78 @@ def describe(r):
         return dict(carrier=r.carrier_type)
     return dict(o_shape=r.o_shape, space_shape=r.space_shape, low=str(z3.simplify(r.low)),
                 high=str(z3.simplify(r.high)))
+
+
+def entry_point_glue():
+    """The public constructors (nasim.generate / make_benchmark / load) must hand the requested
+    modes through to the environment: concrete runs (no solver - the constructors only pass
+    keyword arguments on), all 8 mode combinations, reset and a few steps each."""
+    import itertools
+    import nasim
+    from nasim.scenarios.benchmark import AVAIL_STATIC_BENCHMARKS
+    bad = []
+    n = 0
+    makers = [('nasim.generate(5, 2, address_space_bounds=(6, 4), base_host_value=-1.5)',
+               lambda **kw: nasim.generate(5, 2, address_space_bounds=(6, 4), base_host_value=-1.5, seed=3, **kw)),
+              ("nasim.make_benchmark('tiny')", lambda **kw: nasim.make_benchmark('tiny', **kw)),
+              ("nasim.make_benchmark('small-gen', seed=1)", lambda **kw: nasim.make_benchmark('small-gen', seed=1, **kw)),
+              ("nasim.load(small-honeypot.yaml)", lambda **kw: nasim.load(AVAIL_STATIC_BENCHMARKS['small-honeypot']['file'], **kw))]
+    for label, mk in makers:
+        for fo, fa, fob in itertools.product((False, True), (True, False), (True, False)):
+            n += 1
+            try:
+                env = mk(fully_obs=fo, flat_actions=fa, flat_obs=fob)
+                dims = env.scenario.get_observation_dims()
+                want = (dims[0] * dims[1],) if fob else tuple(dims)
+                o, info = env.reset()
+                outs = [o]
+                rng = _np.random.RandomState(5)
+                for _ in range(6):
+                    a = env.action_space.sample()
+                    ret = env.step(a)
+                    if not (isinstance(ret, tuple) and len(ret) == 5):
+                        bad.append((label, (fo, fa, fob), 'step arity'))
+                        break
+                    outs.append(ret[0])
+                for o in outs:
+                    ok = tuple(o.shape) == want and tuple(env.observation_space.shape) == want and \
+                        o.dtype == _np.float32 and env.observation_space.contains(o)
+                    if not ok:
+                        bad.append((label, (fo, fa, fob), 'observation shape %s / space %s / advertised %s / dtype %s / in space %s'
+                                    % (tuple(o.shape), tuple(env.observation_space.shape), want, o.dtype,
+                                       env.observation_space.contains(o))))
+                        break
+                isflat = isinstance(env.action_space, __import__('nasim').envs.action.FlatActionSpace)
+                if isflat != fa or env.fully_obs != fo or env.flat_obs != fob:
+                    bad.append((label, (fo, fa, fob), 'modes not passed through'))
+            except Exception as e:      # noqa
+                bad.append((label, (fo, fa, fob), 'raised %r' % (e,)))
+    return n, bad
+
+
+def main(tier, seed):
+    import sys
+    from .. import runner, lockstep
+    mod = sys.modules[__name__]
+    report = runner.Report(ID, tier, seed)
+    try:
+        report.validated = lockstep.validate(seed, report)
+        runner.explore_all(__name__, queries(tier, seed), report)
+        n, bad = entry_point_glue()
+        report.extra['entry_point_runs'] = n
+        report.validated += n
+        code = runner.finish(report, mod)
+        if bad:
+            for b in bad[:3]:
+                path = runner.save_replay(ID, dict(property=ID, obligation='entry_point_passes_modes_through', module=__name__,
+                                                   query=dict(constructor=b[0], modes=list(b[1])), model={}, detail=b[2]))
+                print("violated obligation: entry_point_passes_modes_through -- %s %s: %s" % (b[0], b[1], b[2]))
+                print("VIOLATION property=%s replay=%s" % (ID, path))
+            return runner.EXIT_VIOLATION
+        return code
+    except BaseException as e:
+        import traceback
+        traceback.print_exc()
+        report.errors.append("%s: %s" % (type(e).__name__, e))
+        runner.write_evidence(report, mod, False, 0)
+        return runner.EXIT_HARNESS
